@@ -84,6 +84,7 @@ func genC12(driver string, col *ev.Collector) func(*rapid.T) c12Case {
 			col.Excluded("c11." + clsDirectVsRange)
 			suppressDirectVsRange(&c.Scenario)
 		}
+		honourAliasDupSection(col, &c.Manifest)
 		honourDepMgmtClass(col, "c12", &c.Manifest)
 		honourDepMgmtRange(col, "c12", &c.Manifest)
 		o := remOpts{DevDeps: pct(t, "dev_deps") < 65, MaxDepth: -1}
@@ -143,6 +144,45 @@ func genC12(driver string, col *ev.Collector) func(*rapid.T) c12Case {
 		c.Opts = o
 		c.NoIntroduce = pct(t, "no_introduce") < 25
 		return c
+	}
+}
+
+// clsAliasDupDevOpt: a package.json requires one registry package twice under different keys
+// (aliases) inside devDependencies or optionalDependencies. The reader (manifest/npm parse)
+// de-duplicates those two sections by package key without the alias, over a Go map iteration:
+// one of the two requirements, picked at random per reading, replaces the other, so two
+// analyses of the same file see different requirements.
+const clsAliasDupDevOpt = "c12.npm_alias_duplicate_in_dev_or_optional"
+
+func aliasDupDevOpt(m universe.Manifest) []string {
+	if m.System != universe.NPM {
+		return nil
+	}
+	var names []string
+	for i, d := range m.Deps {
+		for _, e := range m.Deps[:i] {
+			if e.Name == d.Name && e.Alias != d.Alias && (d.Group != "" || e.Group != "") {
+				names = append(names, d.Name)
+			}
+		}
+	}
+	return names
+}
+
+// honourAliasDupSection suppresses the class by moving the duplicated package's requirements
+// to the dependencies section.
+func honourAliasDupSection(col *ev.Collector, m *universe.Manifest) {
+	names := aliasDupDevOpt(*m)
+	if len(names) == 0 || !col.IsKnown(clsAliasDupDevOpt) {
+		return
+	}
+	col.Excluded(clsAliasDupDevOpt)
+	for i := range m.Deps {
+		for _, n := range names {
+			if m.Deps[i].Name == n {
+				m.Deps[i].Group = ""
+			}
+		}
 	}
 }
 
@@ -256,12 +296,20 @@ func propC12(c c12Case) (ev.Outcome, error) {
 		if err != nil {
 			return out(false), fmt.Errorf("harness: original manifest unreadable: %v", err)
 		}
-		after, err := readRequirements(w, path1)
-		if err != nil {
-			return out(false), fmt.Errorf("no patch was reported but the manifest can no longer be read: %v", err)
+		// (every reading of the untouched file has to give the original requirements; files with
+		// an aliased duplicate are read many times: the reader walks Go maps)
+		reads := 1
+		if dupPkg != "" {
+			reads = 40
 		}
-		if !reflect.DeepEqual(before, after) {
-			return out(false), fmt.Errorf("no patch was reported but the requirements changed: before %v, after %v", before, after)
+		for i := 0; i < reads; i++ {
+			after, err := readRequirements(w, path1)
+			if err != nil {
+				return out(false), fmt.Errorf("no patch was reported but the manifest can no longer be read: %v", err)
+			}
+			if !reflect.DeepEqual(before, after) {
+				return out(false), fmt.Errorf("no patch was reported but the requirements changed: before %v, after %v", before, after)
+			}
 		}
 		if c.Universe.System == universe.NPM {
 			b0, _ := os.ReadFile(path0)
@@ -397,8 +445,12 @@ func propC12(c c12Case) (ev.Outcome, error) {
 	}
 	if !reflect.DeepEqual(sortedKeys(want), sortedKeys(got)) {
 		written, _ := os.ReadFile(path1)
-		return out(true), fmt.Errorf("run 1 found %v and applied %s, so a fresh analysis should find %v, but it finds %v; written manifest:\n%s",
-			sortedKeys(ids1), describePatch(p), sortedKeys(want), sortedKeys(got), written)
+		note := ""
+		if explicit {
+			note = fmt.Sprintf(" (explicit list %v; ids in some node of the original graph, unfiltered: %v)", c.Opts.ExplicitVulns, sortedKeys(inOriginal))
+		}
+		return out(true), fmt.Errorf("run 1 found %v and applied %s, so a fresh analysis should find %v, but it finds %v%s; written manifest:\n%s",
+			sortedKeys(ids1), describePatch(p), sortedKeys(want), sortedKeys(got), note, written)
 	}
 	return out(len(res1.Vulnerabilities) > 0), nil
 }
